@@ -1707,6 +1707,7 @@ class RejectDriver:
                 if st != "ok":
                     ctx.violation("C13/rejected_wellformed:predict_%s" % kind, {"teams": names, "exception": type(val).__name__, "message": str(val)[:200]})
             self.repeated_objects(names)
+            self.subclassed_ratings(names)
             self.ambiguous_elements(names)
             if not self.big_done:
                 self.big_done = True
@@ -1772,6 +1773,41 @@ class RejectDriver:
                     d = diff_state(pre_m, model_state(league.model))
                     if d:
                         ctx.violation("C13/side_effect:%s:model.%s" % (tag, ",".join(d)), {"teams": names, "pos": pos})
+
+    def subclassed_ratings(self, names):
+        """An application's own player class derived from the model's rating class (extra
+        fields, nothing overridden): its instances ARE that model's own rating objects, the
+        pinned code rates them, and so must any tree that keeps the property (an exact-type
+        test instead of isinstance refuses them)."""
+        ctx = self.ctx
+        league = self.league
+        base_teams = league.teams_of(names)
+        rating_cls = type(base_teams[0][0])
+        try:
+            player_cls = type("LeaguePlayer", (rating_cls,), {"__doc__": "application subclass", "country": "??"})
+        except TypeError:
+            return  # a rating class that cannot be subclassed at all: nothing to probe
+        for call in ("rate", "win", "draw", "rank"):
+            teams = []
+            for t in base_teams:
+                row = []
+                for k, p in enumerate(t):
+                    if (len(teams) + k) % 2 == 0:
+                        q = player_cls.__new__(player_cls)
+                        try:
+                            player_cls.__init__(q, p.mu, p.sigma, p.name)
+                        except Exception:
+                            return  # constructor signature changed: not this probe's business
+                        q.joined = 2019
+                    else:
+                        q = mk_rating(league.model, p.mu, p.sigma, p.name)
+                    row.append(q)
+                teams.append(row)
+            st, val = call_outcome(lambda: faults.invoke(league.model, call, [teams], {}))
+            ctx.evaluations += 1
+            ctx.count("subclassed_rating_probe")
+            if st != "ok" and isinstance(val, (TypeError, ValueError)):
+                ctx.violation("C13/rejected_wellformed:%s:subclass_of_rating_class" % call, {"teams": names, "exception": type(val).__name__, "message": str(val)[:200]})
 
     def repeated_objects(self, names):
         """Games in which the SAME rating object (or the same team list) appears twice.  The
@@ -1946,8 +1982,9 @@ class StoreDriver:
                 return {"op": "RATE2", "inner": g}
         if r < 0.992 and r >= 0.985:
             return {"op": "DECAY", "names": rng.sample(names, min(len(names), rng.randint(1, 3))), "factor": enc(rng.choice([1.05, 1.5, 0.9]))}
-        if r >= 0.996:
-            return {"op": "THREAD_BUILD", "threads": rng.choice([2, 3]), "each": rng.randint(1, 4), "path": rng.choice(["rating", "create_rating"])}
+        if r >= 0.99:
+            return {"op": "THREAD_BUILD", "threads": rng.choice([2, 3]), "each": rng.randint(1, 4), "path": rng.choice(["rating", "create_rating"]),
+                    "scheduled": rng.random() < 0.6, "gran": "opcode" if rng.random() < 0.3 else "line"}
         if r < 0.971 and not self.mass_done:
             self.mass_done = True
             return {"op": "MASS_BUILD", "n": 66000, "path": rng.choice(["rating", "create_rating"])}
@@ -2057,12 +2094,54 @@ class StoreDriver:
                 else:
                     built.append((k, m.rating(name="w%d-%d" % (k, j))))
 
-        for k in range(op["threads"]):
-            t = threading.Thread(target=work, args=(k,))
-            t.start()
-            t.join()
+        if op.get("scheduled"):
+            # the registrations really overlap: the workers run under the baton scheduler and are
+            # pre-empted at every line (or instruction) of library code inside rating() /
+            # create_rating() / the rating constructor
+            n = op["threads"]
+            errors = []
+
+            def body_for(k):
+                def body(sc, i):
+                    for j in range(op["each"]):
+                        sc.begin_call(i)
+                        try:
+                            if op.get("path") == "create_rating":
+                                r = type(m).create_rating([25.0 + j, 8.0], "w%d-%d" % (k, j))
+                            else:
+                                r = m.rating(name="w%d-%d" % (k, j))
+                            built.append((k, r))
+                        except S.SimCrash:
+                            raise
+                        except Exception as e:
+                            errors.append(type(e).__name__)
+                        finally:
+                            sc.end_call(i)
+
+                return body
+
+            if "schedule" in op:
+                chooser = S.ReplayChooser(op["schedule"])
+            else:
+                srng = ctx.rng("schedule")
+                strat, sp = S.gen_strategy(srng, n, 30 * op["each"] * n)
+                chooser = S.GenChooser(srng, n, strat, sp, None)
+            sc = S.Sched(n, chooser, gran=op.get("gran", "line"))
+            sc.run([body_for(k) for k in range(n)])
+            op["schedule"] = sc.decisions
+            ctx.fault("preempt", sc.switches)
+            ctx.count("threaded_phases")
+            ctx.steps += sc.steps
+            ctx.sigs.add(sc.signature())
+            if errors:
+                ctx.violation("C20/id_not_fresh:built_in_threads:raised_%s" % errors[0], {"errors": errors[:5]})
+        else:
+            for k in range(op["threads"]):
+                t = threading.Thread(target=work, args=(k,))
+                t.start()
+                t.join()
         ctx.evaluations += 1
-        ctx.fault("build_from_threads")
+        ctx.fault("build_from_threads" + ("_overlapping" if op.get("scheduled") else ""))
         ids = [getattr(r, "id", None) for _, r in built]
         if len(set(ids)) != len(ids):
             ctx.violation("C20/id_not_fresh:built_in_threads", {"built": len(ids), "distinct_ids": len(set(ids))})
